@@ -42,7 +42,8 @@ struct Proc {
     int status_errno = 0;                   // same for /proc/<pid>/status
 };
 struct FileNode {
-    int kind = 0;                           // 0 regular, 1 directory, 2 /dev/null, 3 /dev/tty
+    int kind = 0;                           // 0 regular, 1 directory, 2 /dev/null, 3 /dev/tty, 4 FIFO with a (slow) reader
+    long fifo_free = -1;                    // FIFO: bytes of room in the pipe right now (-1 plenty)
     std::string content;
     int open_errno = 0;                     // every open of this path fails with it
     uint32_t uid = 0;
